@@ -587,11 +587,15 @@ def model_token(tok):
     return "K:" + kind
 
 
-def stream_pratt(env, res):
+def stream_pratt(env, res, only=None):
     r = env.rng
     quick = env.tier == "quick"
     n = 1500 if quick else 60000
     cases = []
+    if only is not None:
+        n = 0
+        for j, (src, want) in enumerate(only):
+            cases.append({"id": "r%d" % j, "src": src, "want": want, "bare": not src.startswith("make v get "), "ops": {"replay"}})
     for i in range(n):
         g = ExprGen(r, postfix=(i % 4 != 0), p_paren=r.choice([0.0, 0.1, 0.25]))
         e = g.gen(r.randint(1, 5))
@@ -601,7 +605,7 @@ def stream_pratt(env, res):
         src = txt if bare else "make v get " + txt
         cases.append({"id": "p%d" % i, "src": src + "\n", "want": tree_str(strip3(e)), "bare": bool(bare), "ops": g.ops})
     # fixed corpus: the documented examples of precedence-sensitive text
-    for j, (src, want) in enumerate(PRATT_CORPUS):
+    for j, (src, want) in enumerate(PRATT_CORPUS if only is None else []):
         cases.append({"id": "c%d" % j, "src": src + "\n", "want": want, "bare": False, "ops": {"corpus", "x", "y"}})
     toks = frontend_tokens(env, "pratt", [c["src"] for c in cases])
     recs = langrun.run_impl(env, "pratt", [(c["id"], c["src"]) for c in cases], cfgs=[])
@@ -659,7 +663,8 @@ def stream_pratt(env, res):
     res["distinct_nontrivial"] += len(nontrivial)
     res["extra"]["pratt"] = {"cases": len(cases), "distinct_trees_with_3_or_more_operator_kinds": len(nontrivial),
                              "bare_identifier_statements": sum(1 for c in cases if c["bare"])}
-    res["samples"].append({"stream": "pratt", "case": cases[0]["src"], "tree": cases[0]["want"]})
+    if cases:
+        res["samples"].append({"stream": "pratt", "case": cases[0]["src"], "tree": cases[0]["want"]})
 
 
 def _v(n):
@@ -721,12 +726,14 @@ def template_key(owned, content):
     return "template-reading:" + common.chash(content.hex())
 
 
-def stream_template(env, res):
+def stream_template(env, res, only=None):
     r = env.rng
     quick = env.tier == "quick"
     n = 1200 if quick else 40000
     lits = []
-    for raw in TPL_CORPUS:
+    if only is not None:
+        n = 0
+    for raw in (TPL_CORPUS if only is None else []):
         lits.append(('"', raw))
     for i in range(n):
         q = '"' if r.random() < 0.8 else "'"
@@ -745,6 +752,8 @@ def stream_template(env, res):
     for i, (q, raw) in enumerate(lits):
         src = 'make x get 1\nmake y get "s"\nmake _u1 get true\nshout(%s%s%s)\n' % (q, raw, q)
         cases.append({"id": "t%d" % i, "src": src, "raw": raw})
+    for j, src in enumerate(only or []):
+        cases.append({"id": "r%d" % j, "src": src, "raw": src})
     toks = frontend_tokens(env, "tpl", [c["src"] for c in cases])
     recs = langrun.run_impl(env, "tpl", [(c["id"], c["src"]) for c in cases], cfgs=[])
     mlines, idx = [], []
@@ -793,7 +802,8 @@ def stream_template(env, res):
             nontrivial.add(common.chash(hx(content) + str(owned)))
     res["distinct_nontrivial"] += len(nontrivial)
     res["extra"]["template"] = dict(stats, cases=len(idx), distinct_literals_with_braces=len(nontrivial))
-    res["samples"].append({"stream": "template", "case": idx[0]["src"], "model": mout[0]})
+    if idx:
+        res["samples"].append({"stream": "template", "case": idx[0]["src"], "model": mout[0]})
 
 
 # ----------------------------------------------------------------------------------------------
@@ -1018,7 +1028,7 @@ def constructs(ast_line):
     return ks
 
 
-def run_model_safe(env, name, impl_recs, order, chunk=400):
+def run_model_safe(env, name, impl_recs, order, chunk=400, timeout=None):
     """langrun.run_model with a large native stack for the extracted evaluator (deep recursion of a
     program under test must end in the model's `fuel`, not in an OCaml stack overflow); a chunk that
     still dies is bisected and the offending case is left without a model record (inconclusive)."""
@@ -1035,7 +1045,7 @@ def run_model_safe(env, name, impl_recs, order, chunk=400):
                 f.write("case %s\n%s\n%s\nend %s\n" % (cid, r["ast"], r["plan"], cid))
         cmd = "ulimit -s unlimited 2>/dev/null || ulimit -s 1000000; ulimit -v 6000000; exec %s lang %s %s %s" % (
             common.NSMODEL, langrun.eps_hex(), inp, outp)
-        rc, o = common.sh(["bash", "-c", cmd], timeout=60 + len(ids))
+        rc, o = common.sh(["bash", "-c", cmd], timeout=timeout or (60 + len(ids)))
         if rc == 0:
             out.update(langrun.parse_records(open(outp).read().splitlines()))
             return True
@@ -1054,32 +1064,70 @@ def run_model_safe(env, name, impl_recs, order, chunk=400):
     return out
 
 
-def stream_programs(env, res):
+def stream_programs(env, res, only=None):
     r = env.rng
     quick = env.tier == "quick"
     cases = []
     # generated programs: broad mix, then biased mixes
     n = 500 if quick else 20000
+    if only is not None:
+        n = 0
+        cases = [("r%d" % j, src, None) for j, src in enumerate(only)]
     mixes = [langgen.Opts(), langgen.Opts(p_trap=0.12, p_fn=0.3), langgen.Opts(max_stmts=22, p_loop=0.2),
              langgen.Opts(p_fn=0.35, p_recursion=0.6, p_forward_call=0.5), langgen.Opts(alias_heavy=True, p_shadow=0.4)]
     for i in range(n):
         src, stats = langgen.generate(r, mixes[i % len(mixes)])
         cases.append(("g%d" % i, src, None))
-    for cid, src in matrix_programs(env):
+    for cid, src in (matrix_programs(env) if only is None else []):
         cases.append((cid, src, None))
     ex = os.path.join(common.REPO, "examples")
-    for fn in sorted(os.listdir(ex)):
+    for fn in (sorted(os.listdir(ex)) if only is None else []):
         if fn.endswith(".ns"):
             cases.append(("ex-" + fn[:-3], open(os.path.join(ex, fn), encoding="utf-8").read(), None))
     skipped_docs = 0
-    for sid, src, expected in docs_snippets():
+    for sid, src, expected in (docs_snippets() if only is None else []):
         if src is None:
             skipped_docs += 1
             continue
         cases.append((sid, src, expected))
-    order = [c[0] for c in cases]
     t0 = time.time()
     recs = langrun.run_impl(env, "prog", [(c[0], c[1]) for c in cases], cfgs=["nn", "pn"], timeout=1200)
+    # documentation fragments that only miss the declaration of a variable (`foo pass 10` with foo
+    # from the surrounding prose) are completed with a declaration and run as well
+    completed = []
+    doc_rejected = {}
+    for cid, src, expected in cases:
+        rec = recs.get(cid)
+        if not cid.startswith("doc-") or rec is None or rec.get("accepted") or rec.get("parse"):
+            if cid.startswith("doc-") and rec is not None and not rec.get("accepted"):
+                doc_rejected[cid] = error_signature(rec["diags"])[:3]
+            continue
+        names = []
+        only_undeclared = True
+        raw = src.encode("utf-8")
+        for d in rec["diags"]:
+            t = d.split()
+            if t[1] != "error":
+                continue
+            msg = bytes.fromhex(t[3]).decode("utf-8", "replace")
+            if msg in ("Undeclared identifier", "Assignment to undeclared variable"):
+                nm = raw[int(t[4]):int(t[5])].decode("utf-8", "replace")
+                if re.fullmatch(r"[A-Za-z_]\w*", nm) and nm not in names:
+                    names.append(nm)
+            elif msg != "Type mismatch":
+                only_undeclared = False
+        if names and only_undeclared:
+            pre = "".join("make %s get %s\n" % (n, "true" if n == "condition" else "12") for n in names)
+            completed.append((cid + "-completed", pre + src, None))
+        else:
+            doc_rejected[cid] = error_signature(rec["diags"])[:3]
+    if completed:
+        recs.update(langrun.run_impl(env, "prog2", [(c[0], c[1]) for c in completed], cfgs=["nn", "pn"], timeout=600))
+        cases += completed
+        for cid, src, _ in completed:
+            if not recs.get(cid, {}).get("accepted"):
+                doc_rejected[cid] = error_signature(recs.get(cid, {}).get("diags", []))[:3]
+    order = [c[0] for c in cases]
     t1 = time.time()
     # a run that exhausted the native stack budget is never compared; do not make the model recurse as deep
     order = [cid for cid in order
@@ -1151,8 +1199,10 @@ def stream_programs(env, res):
                 res["failures"].append({"key": "documented-output:" + cid, "stream": "programs", "case": src,
                                         "observed": shown, "expected": want})
     res["distinct_nontrivial"] += len(nontrivial)
-    res["extra"]["programs"] = dict(st, cases=len(cases), nontrivial=len(nontrivial))
-    res["samples"].append({"stream": "programs", "case": cases[0][1][:400], "impl": recs.get(cases[0][0], {}).get("runs", {}).get("nn")})
+    res["extra"]["programs"] = dict(st, cases=len(cases), nontrivial=len(nontrivial),
+                                    docs_snippets_rejected=doc_rejected, docs_fragments_completed=len(completed))
+    if cases:
+        res["samples"].append({"stream": "programs", "case": cases[0][1][:400], "impl": recs.get(cases[0][0], {}).get("runs", {}).get("nn")})
 
 
 # ----------------------------------------------------------------------------------------------
@@ -1478,7 +1528,7 @@ def rename_function_locals(src):
     return "\n".join(out)
 
 
-def accept_eval(env, name, items, spec=False):
+def accept_eval(env, name, items, spec=False, timeout=None):
     """items: [(id, src)] -> dict id -> (parse_errors, accepted, simply_typed, diags, spec_ending)
     spec_ending: how Spec.run_spec ends on the dumped AST (names only; computed for every program
     that parses when spec=True, also for the rejected ones)"""
@@ -1506,7 +1556,7 @@ def accept_eval(env, name, items, spec=False):
             rec = recs.get(cid)
             if rec and rec.get("ast"):
                 fake[cid] = dict(rec, plan="plan none")
-        m = run_model_safe(env, name + ".sp", fake, [cid for cid, _ in items if cid in fake])
+        m = run_model_safe(env, name + ".sp", fake, [cid for cid, _ in items if cid in fake], timeout=timeout)
         for cid, mr in m.items():
             if "s" in mr["runs"]:
                 ends[cid] = mr["runs"]["s"][0]
@@ -1534,16 +1584,19 @@ def error_signature(diags):
     return sig
 
 
-def stream_accept(env, res):
+def stream_accept(env, res, only=None):
     r = env.rng
     quick = env.tier == "quick"
     items = []
-    for j, (key, src) in enumerate(ACCEPT_CORPUS):
+    for j, (key, src) in enumerate(ACCEPT_CORPUS if only is None else []):
         items.append(("k%d" % j, src))
     n = 700 if quick else 30000
+    m = 300 if quick else 10000
+    if only is not None:
+        n = m = 0
+        items = [("a%d" % j, src) for j, src in enumerate(only)]
     for i in range(n):
         items.append(("a%d" % i, TGen(r).program()))
-    m = 300 if quick else 10000
     for i in range(m):
         src, _ = langgen.generate(r, langgen.Opts(p_trap=0.0, p_dead=0.0))
         items.append(("l%d" % i, src))
@@ -1600,7 +1653,7 @@ def stream_accept(env, res):
             lines = src.rstrip("\n").split("\n")
 
             def still(cand_lines):
-                ev3 = accept_eval(env, "shr", [("s", "\n".join(cand_lines) + "\n")], spec=True)["s"]
+                ev3 = accept_eval(env, "shr", [("s", "\n".join(cand_lines) + "\n")], spec=True, timeout=6)["s"]
                 return ev3[0] == 0 and ev3[1] is False and ev3[2] == "1" and spec_valid(ev3[4])
             if len(lines) <= 45 and still(lines):
                 small_src = "\n".join(common.ddmin_lines(lines, still, keep_head=0)) + "\n"
@@ -1609,4 +1662,81 @@ def stream_accept(env, res):
                                 "original": src if len(src) < 1500 else src[:1500]})
     res["distinct_nontrivial"] += len(nontrivial)
     res["extra"]["accept"] = dict(st, rejection_signatures=seen, distinct_typed_programs_with_functions=len(nontrivial))
-    res["samples"].append({"stream": "accept", "case": items[len(ACCEPT_CORPUS)][1][:600]})
+    if only is None:
+        res["samples"].append({"stream": "accept", "case": items[len(ACCEPT_CORPUS)][1][:600]})
+
+
+# ----------------------------------------------------------------------------------------------
+# entry points
+
+RULE = ("distinct non-trivial = f64: distinct (operation, bit patterns) lines; pratt: distinct expression trees using >= 3 "
+        "operator kinds; template: distinct (token content, owned) with a brace; programs: distinct accepted programs that "
+        "print >= 1 value, use >= 3 construct kinds and were compared with Spec.run_spec; accept: distinct simply-typed "
+        "programs that define a function")
+
+STREAMS = [("f64", stream_f64), ("pratt", stream_pratt), ("template", stream_template),
+           ("programs", stream_programs), ("accept", stream_accept)]
+
+
+def new_result():
+    return {"evaluations": 0, "distinct_nontrivial": 0, "rule": RULE, "samples": [], "failures": [],
+            "disagreements": [], "extra": {}}
+
+
+def dedupe_failures(failures):
+    """one witness per key (the shortest), with the number of inputs that hit it"""
+    by = {}
+    for f in failures:
+        k = f["key"]
+        if k not in by:
+            by[k] = dict(f, count=1)
+        else:
+            n = by[k]["count"] + 1
+            if len(f.get("case", "")) < len(by[k].get("case", "")):
+                by[k] = dict(f)
+            by[k]["count"] = n
+    return list(by.values())
+
+
+def correspond(env, searching=False, model=True):
+    res = new_result()
+    times = {}
+    for name, fn in STREAMS:
+        t0 = time.time()
+        try:
+            fn(env, res)
+        except Exception as ex:          # a stream that cannot run is a tie that no longer checks
+            import traceback
+            env.log(traceback.format_exc())
+            res["disagreements"].append({"stream": name, "what": "stream crashed: %s" % str(ex)[:300]})
+        times[name] = round(time.time() - t0, 1)
+        env.log("C01 stream %s: %.1fs, %d failures, %d disagreements so far" % (
+            name, times[name], len(res["failures"]), len(res["disagreements"])))
+    res["failures"] = dedupe_failures(res["failures"])
+    res["extra"]["stream_seconds"] = times
+    res["disagreements"] = res["disagreements"][:40]
+    return res
+
+
+def replay(env, payload):
+    """0 = the recorded input passes now, 1 = still failing"""
+    case = payload.get("case") or {}
+    res = new_result()
+    if payload.get("kind") == "failing-input" and case.get("stream"):
+        st = case["stream"]
+        src = case.get("case", "")
+        if st == "template":
+            stream_template(env, res, only=[src])
+        elif st == "pratt":
+            stream_pratt(env, res, only=[(src, case.get("expected", ""))])
+        elif st == "programs":
+            stream_programs(env, res, only=[src])
+        elif st == "accept":
+            stream_accept(env, res, only=[src])
+        print("replay %s: %d failures, %d disagreements" % (st, len(res["failures"]), len(res["disagreements"])))
+        for f in res["failures"][:3]:
+            print("  still failing:", f["key"], f.get("observed"))
+        return 1 if res["failures"] else 0
+    res = correspond(env)
+    print("replay (all streams): %d failures, %d disagreements" % (len(res["failures"]), len(res["disagreements"])))
+    return 1 if (res["failures"] or res["disagreements"]) else 0
